@@ -403,6 +403,7 @@ def run(ctx):
     _no_zero_in_lists(ctx)
     _next_index_after_renumbering(ctx)
     _stale_loop_counters(ctx)
+    _no_update_of_index_zero(ctx)
 
 def _registered_hash(ctx):
     """R11.5: names are made unique through the _wrappers_by_hash registry; the
@@ -878,3 +879,77 @@ def _stale_loop_counters(ctx):
                            "`%s` uses `%s`, the counter of the loop at line %d that has already finished (its value is the loop's bound)" % (show(use)[:60], v.get("n"), f.line_of(lp)))
     ctx.ob("R11.9", "no-stale-counter-use", True, "src", "%d counted loops whose counter outlives them were examined" % n_loops)
     ctx.floor("R11.9", "counted loops whose counter is declared before the loop", n_loops, 10)
+
+
+def _no_update_of_index_zero(ctx):
+    """R11.10: InterrogateDatabase::update_<kind>(i) is `_<kind>_map[i]`: for an index that is not in the map it CREATES
+    an entry.  For i == 0 ("none") that phantom entry is then renumbered like a real one and every field of the database
+    that holds 0 is rewritten to its index (the assert that guards update_type is compiled out).  A local index that
+    the function itself compares with 0 (its own statement that 0 occurs) may reach update_*() only on the non-zero side
+    or after it was given a fresh index.  (Seed S7-C11.  A first version also distrusted every answer of get_function();
+    that fired on get_getter(), where the 0 answer - a constructor of an abstract class - cannot occur: dropped.)"""
+    db = ctx.db
+    ctx.rule("R11.10", "in the builder and the generators, update_type/update_function/update_wrapper/update_manifest/update_element/update_make_seq(v) with a local v that can be 0 is behind a test that v is not 0")
+    producers = set()
+    for f in db.functions:
+        if not f.name.startswith("InterrogateBuilder::"):
+            continue
+        rt = (f.sig or "").split("(")[0].strip()
+        if any(rt.endswith(t) for t in INDEX_TYPES) and any(r.get("k") == "ret" and r.get("e") is not None and const_int(r["e"]) == 0 for r in f.walk()):
+            producers.add(f.name)
+    n = 0
+    for f in db.functions:
+        if "/interrogate/" not in f.file:
+            continue
+        for c in f.walk():
+            if c.get("k") != "call" or not (c.get("f") or "").startswith("InterrogateDatabase::update_") or not c.get("a"):
+                continue
+            v = local_ref(strip_casts(peel(c["a"][0])))
+            if v is None or v.get("dk") != "local":
+                continue
+            d = v["d"]
+            can_be_zero = None
+            for y in f.walk():
+                cm = G.cmp_atom(y) if y.get("k") in ("bin",) else None
+                if cm and cm[0] in ("==", "!=") and any((local_ref(z) or {}).get("d") == d for z in cm[1:] if z is not None) and any(const_int(z) == 0 for z in cm[1:] if z is not None):
+                    can_be_zero = "the function itself compares `%s` with 0" % v.get("n")
+                src = None
+                if y.get("k") == "decls":
+                    for dd in y["d"]:
+                        if dd.get("d") == d and dd.get("init") is not None:
+                            src = strip_casts(peel(dd["init"]))
+                t = assigned_target(y)
+                if t and (local_ref(t[0]) or {}).get("d") == d:
+                    src = strip_casts(peel(t[1]))
+            if can_be_zero is None:
+                continue
+            n += 1
+
+            def nonzero(atom, truth, d=d):
+                cc = G.cmp_atom(atom)
+                if cc:
+                    op, u, w = cc
+                    if not truth:
+                        op = G.NEG[op]
+                    for p, q in ((u, w), (w, u)):
+                        lr = local_ref(p)
+                        if lr is not None and lr.get("d") == d and q is not None and const_int(q) == 0:
+                            return op in ("!=", ">") if p is u else op in ("!=", "<")
+                    return False
+                lr = local_ref(atom)
+                return lr is not None and lr.get("d") == d and truth
+            # an assignment of a freshly allocated index (get_next_index()) also makes it non-zero
+            fresh = []
+            for y in f.walk():
+                t = assigned_target(y)
+                if t and (local_ref(t[0]) or {}).get("d") == d:
+                    r = strip_casts(peel(t[1]))
+                    if r is not None and r.get("k") == "call" and callee_short(r) == "get_next_index":
+                        loc = f.cfg.locate(y)
+                        if loc:
+                            fresh.append(loc[0])
+            lc = f.cfg.locate(c)
+            ok = lc is None or lc[0] not in f.cfg.reachable(cut_edges=G.edges_where(f, nonzero), cut_blocks=[b for b in fresh if lc is None or b != lc[0]])
+            ctx.ob("R11.10", "%s|%s(%s)|not-zero" % (f.name, callee_short(c), v.get("n")), ok, f.loc(c),
+                   "%s; `%s` is %sbehind `%s != 0`" % (can_be_zero, show(c)[:50], "" if ok else "NOT ", v.get("n")))
+    ctx.floor("R11.10", "update_*() calls with an index the function compares with 0", n, 2)
